@@ -50,6 +50,18 @@ def mutate(rng, data, hard=False):
     return bytes(b[:70000])
 
 
+def hostile_rpfm(rng):
+    """a frame with a well-formed length prefix whose address attribute is drawn from the (tag, length byte, actual size) grid"""
+    tag = rng.choice([0, 1, 2, 3, 3, 3, 4, 9, 255])
+    ln = rng.choice([0, 0, 1, 1, 2, 3, 5, 6, 7, 17, 18, 19, 100, 255])
+    actual = rng.choice([0, 1, 2, 3, 4, 6, 8, 18, 20, ln, ln + 1, max(0, ln - 1), 300])
+    attr = bytes([tag, ln]) + rng.randbytes(actual)
+    if rng.random() < 0.2:
+        attr = attr[:rng.randint(0, len(attr))]
+    body = rng.randbytes(rng.choice([0, 1, 30]))
+    return struct.pack(">IIHH", rc.RPFM, rng.getrandbits(32), len(attr), len(body)) + attr + body
+
+
 def hostile_http(rng, oaddr):
     k = rng.randrange(10)
     base = rc.http_connect(oaddr)
@@ -73,6 +85,8 @@ def hostile_http(rng, oaddr):
     if k == 8:
         # udp over http, then hostile frames
         frames = b""
+        for _ in range(rng.randint(0, 3)):
+            frames += hostile_rpfm(rng)
         for _ in range(rng.randint(1, 4)):
             f = rc.rpfm_frame(rng.getrandbits(32), rng.choice(["1.2.3.4", "fd00::9", "a", "abc", "host.sim", None]), rng.randint(0, 65535), rng.randbytes(rng.choice([0, 1, 50])))
             frames += mutate(rng, f) if rng.random() < 0.7 else f
@@ -123,7 +137,8 @@ def hostile_upstream_http(rng):
     if k == 6:
         return b"HTTP/1.1 200 OK\r\nNoColonHere\r\n\r\n"
     if k == 7:
-        return b"HTTP/1.1 200 OK\r\n\r\n" + rng.choice([b"RPFM", b"RPFM\0\0\0\1\xff\xff\xff\xff", rng.randbytes(40), b"RPFM\0\0\0\1\0\x08\0\0\x03\x06abcd\0\x01"])
+        return b"HTTP/1.1 200 OK\r\nSession-Id: 3\r\n\r\n" + rng.choice([b"RPFM", b"RPFM\0\0\0\1\xff\xff\xff\xff", rng.randbytes(40), b"RPFM\0\0\0\1\0\x08\0\0\x03\x06abcd\0\x01",
+                                                                    hostile_rpfm(rng), hostile_rpfm(rng) + hostile_rpfm(rng)])
     return b"\r\n\r\n"
 
 
@@ -233,7 +248,8 @@ def gen(rng, tier, i):
             qops = []
             for _ in range(rng.randint(1, 8)):
                 d = rng.choice([b"", b"\0", b"\0\1", b"\0\1\2", struct.pack(">HBB", rng.randrange(65536), rng.choice([0, 1, 2, 127, 128, 255]), rng.choice([0, 1, 126, 127, 200, 255])) + rng.randbytes(rng.choice([0, 5, 300])),
-                                struct.pack(">HBB", 7, 1, 0) + rng.choice([b"RPFM", b"RPFM\0\0\0\1\xff\xff\xff\xff", rc.rpfm_frame(1, "a", 1, b"x"), mutate(rng, rc.rpfm_frame(0, "1.2.3.4", 5, b"yy"))])])
+                                struct.pack(">HBB", 7, 1, 0) + rng.choice([b"RPFM", b"RPFM\0\0\0\1\xff\xff\xff\xff", rc.rpfm_frame(1, "a", 1, b"x"), mutate(rng, rc.rpfm_frame(0, "1.2.3.4", 5, b"yy")), hostile_rpfm(rng)]),
+                                struct.pack(">HBB", rng.randrange(65536), 1, 0) + hostile_rpfm(rng)])
                 qops.append(op("send_datagram", hex=d.hex()))
             qops.append(op("sleep", ms=300))
             sc.actors.append({"kind": "quic_client", "id": cid, "bind": "%s:%d" % (sc.client_ip(), 5600 + k), "dst": lis["quic"]["addr"], "start_ms": t,
